@@ -22,7 +22,7 @@ RULE = (
     "start offset (needle) / at least one satisfying header (ArtifactKit)."
 )
 ASSUMPTIONS = [
-    "uninterrupted consumption of the iterator (the documented seek side effect is not interleaved with other file use)",
+    "between two results the consumer may seek to the reported offset and read from the same file object, as the library's own find_beacon_config_bytes does (class 'consumer'); other concurrent use of the file object is not explored",
     "needles have length >= 1",
     "for a limit, the offset equal to the limit itself may or may not be reported (the statement only fixes both sides of it)",
 ]
@@ -39,15 +39,25 @@ def true_occurrences(hay, needle, start):
     return out
 
 
-def judge_needle(hay, needle, bs, start, limit, utils, pos=0):
+def judge_needle(hay, needle, bs, start, limit, utils, pos=0, consumer=0):
     """Returns None or (monitor, message).  pos: file position before the call (matters when start is None:
-    'search from the current position')."""
+    'search from the current position').  consumer: n > 0 = after every result the caller seeks to the reported
+    offset and reads n bytes from the same file object (what find_beacon_config_bytes does with n = 4096)."""
     core.set_buffer_size(bs)
     fh = io.BytesIO(hay)
     fh.seek(pos)
     s = pos if start is None else start
     try:
-        got = list(utils.iter_find_needle(fh, needle, start_offset=start, max_offset=limit))
+        if consumer:
+            got = []
+            for off in utils.iter_find_needle(fh, needle, start_offset=start, max_offset=limit):
+                got.append(off)
+                fh.seek(off)
+                fh.read(consumer)
+                if len(got) > len(hay) + 2:
+                    return "needle.model", f"more results than positions with a reading consumer: {got[:10]}..."
+        else:
+            got = list(utils.iter_find_needle(fh, needle, start_offset=start, max_offset=limit))
     except Exception as e:  # noqa: BLE001
         return "needle.exception", f"{type(e).__name__}: {e}"
     truth = true_occurrences(hay, needle, s)
@@ -75,14 +85,14 @@ def check_case(case, ctx):
         if op == "needle":
             hay, needle = case["hay"], case["needle"]
             ctx.mon("needle.limit" if case["limit"] else "needle.model")
-            r = judge_needle(hay, needle, case["bs"], case["start"], case["limit"], utils, case.get("pos", 0))
+            r = judge_needle(hay, needle, case["bs"], case["start"], case["limit"], utils, case.get("pos", 0), case.get("consumer", 0))
             if r:
                 ctx.violation(r[0], f"hay={core.short(hay, 80)} needle={needle.hex()} bs={case['bs']} start={case['start']} pos={case.get('pos', 0)}: {r[1]}", case)
                 return
             s = case.get("pos", 0) if case["start"] is None else case["start"]
             nt = hay.find(needle, s) != -1
-            ctx.ok(fp=("n", hay, needle, case["bs"], case["start"], case["limit"]), nontrivial=nt, case=case,
-                   classes=("needle:limit" if case["limit"] else "needle:nolimit", f"needle:bs={case['bs'] if case['bs'] and case['bs'] < 10 else 'big'}",
+            ctx.ok(fp=("n", hay, needle, case["bs"], case["start"], case["limit"], case.get("consumer", 0)), nontrivial=nt, case=case,
+                   classes=("needle:limit" if case["limit"] else "needle:nolimit", "needle:consumer-reads" if case.get("consumer") else "needle:consumer-idle", f"needle:bs={case['bs'] if case['bs'] and case['bs'] < 10 else 'big'}",
                             "needle:leading-nul" if needle[:1] == b"\0" else "needle:other", f"needle:len={min(len(needle), 5)}"))
         elif op == "needle_block":
             _needle_block(case, ctx, utils)
@@ -120,6 +130,17 @@ def _needle_block(case, ctx, utils):
                                 return
                         n += 1
                         nt += hay.find(needle, pos if start is None else start) != -1
+                        if not limit and start in (None, 0) and L >= 2:
+                            # the same search with a consumer that reads at every reported offset
+                            for cons in (1, 3):
+                                ctx.monitors["needle.model"] += 1
+                                r = judge_needle(hay, needle, bs, start, limit, utils, pos, cons)
+                                if r:
+                                    c = {"op": "needle", "hay": hay, "needle": needle, "bs": bs, "start": start, "limit": limit, "pos": pos, "consumer": cons}
+                                    ctx.violation(r[0], f"hay={hay.hex()} needle={needle.hex()} bs={bs} start={start} consumer reads {cons}: {r[1]}", c)
+                                    if ctx.nviol > 200:
+                                        return
+                                n += 1
     ctx.bulk(n, nt)
 
 
@@ -243,7 +264,8 @@ def run_shard(shard, ctx):
             start = rng.choice([None, 0, None, rng.randrange(0, hl + 2), rng.randrange(0, hl + 2)])
             limit = rng.choice([0, 0, 0, rng.randrange(1, hl + 10), 1024])
             check_case({"op": "needle", "hay": hay, "needle": needle, "bs": bs, "start": start, "limit": limit,
-                        "pos": rng.randrange(0, hl + 1) if start is None and not limit and rng.random() < 0.6 else 0}, ctx)
+                        "pos": rng.randrange(0, hl + 1) if start is None and not limit and rng.random() < 0.6 else 0,
+                        "consumer": rng.choice([0, 0, 1, 64, 4096])}, ctx)
     elif kind == "artifact":
         for i in range(shard["n"]):
             if ctx.out_of_time():
